@@ -165,7 +165,9 @@ def run(rep, tier, seed):
             by_id[tid] = (c, {"clock": [clock.t0, clock.dt], "built": built, "pre": pre, "same": (n + v) % 2 == 0,
                                  "margin": bool(getattr(clock, "margin", False))}, o)
             mo = dict(c["m"])
-            if mo != o:
+            # decimal stamps: |0.3 + 0.1*a - (0.3 + 0.1*b + 0.1*off)| is rounded, so an exact tie of the integer case is broken
+            # either way by the floating-point sum (P allows both answers); M's first-minimum rule is compared where sums are exact
+            if mo != o and not getattr(clock, "margin", False):
                 rep.drifted("associate(%s,%s,md=%d,off=%d): model %s, code %s" % (c["A"], c["B"], c["md"], c["off"], mo, o))
             if o["kind"] == "ok":
                 rep.nontriv([c["A"], c["B"], c["md"], c["off"]])
